@@ -388,6 +388,19 @@ pub fn stall_violation(out: &RunOut) -> Option<Violation> {
     })
 }
 
+static LAST_PANIC: parking_lot::Mutex<String> = parking_lot::Mutex::new(String::new());
+
+/// Called from the process panic hook.
+pub fn note_panic(msg: &str) {
+    if !msg.contains(crate::db::PANIC_PREFIX) {
+        *LAST_PANIC.lock() = msg.to_string();
+    }
+}
+
+pub fn last_panic() -> String {
+    LAST_PANIC.lock().clone()
+}
+
 /// One property campaign: a deterministic function from an iteration seed to monitored runs.
 pub trait Campaign {
     fn prop(&self) -> &'static str;
@@ -428,7 +441,30 @@ pub fn run_campaign(c: &dyn Campaign, seed: u64, budget: Duration, max_iters: u6
     while start.elapsed() < budget && iters < max_iters && rep.findings.len() < 6 {
         iters += 1;
         let iter_seed = r.next();
-        c.iterate(iter_seed, &mut rep, deadline);
+        // A panic that escapes an iteration (e.g. an `unreachable!` inside revm's bundle code hit
+        // through ParallelState, or an assertion of the library reached by a component driver) is
+        // an observation about the code under test, not a reason to lose the shard. Panics raised
+        // by the harness' own code are reported as inconclusive instead.
+        let before = rep.findings.len();
+        let res = std::panic::catch_unwind(std::panic::AssertUnwindSafe(|| c.iterate(iter_seed, &mut rep, deadline)));
+        if res.is_err() {
+            crate::obs::obs().end_run();
+            let msg = last_panic();
+            rep.findings.truncate(before.max(rep.findings.len().min(before + 6)));
+            if msg.contains("/verif/harness/src") || msg.contains("harness/src/") {
+                rep.inconclusive.push(format!("{} iter_seed={iter_seed} harness panic: {}", c.prop(), msg.chars().take(300).collect::<String>()));
+            } else {
+                rep.evaluations += 1;
+                rep.findings.push(Finding {
+                    property: c.prop().to_string(),
+                    monitor: "PANIC".into(),
+                    owner: c.prop().to_string(),
+                    signature: "PANIC:general".into(),
+                    message: format!("the code under test panicked while driven by this campaign: {}", msg.chars().take(700).collect::<String>()),
+                    replay: serde_json::json!({"property": c.prop(), "monitor": "PANIC", "message": msg, "iter_seed": iter_seed}),
+                });
+            }
+        }
     }
     rep.wall_s = start.elapsed().as_secs_f64();
     rep
